@@ -203,3 +203,70 @@ func VerifC08Array() {
 	rt.Reach("c08.count")
 	rt.Assert(got == verifRefSum(evs, 0, tr, bl, uint64(I)), "the array total equals the events of the last S buckets")
 }
+
+// VerifC08Items: the per-second metric items of a view (SecondMetricsOnCondition): one item per
+// second that has a live bucket passing the predicate, carrying exactly the events of the window that
+// fall into buckets starting in that second.
+func VerifC08Items() {
+	S, I := uint32(rt.Param("S")), uint32(rt.Param("I"))
+	K := rt.Param("K")
+	bl := uint64(I / S)
+	t0 := rt.U64n("t0", 62)
+	rt.Assume(t0 >= uint64(I))
+	bla := verifNewArray(S, I, t0)
+	m, err := NewSlidingWindowMetric(S, I, bla)
+	if err != nil {
+		rt.Assert(false, "the full-array view is rejected by the validity check")
+		return
+	}
+	evs, last := verifHistory(bla, t0, K, -1)
+	tr := rt.U64n("tr", 62)
+	rt.Assume(tr >= last)
+	rt.SetClockMs(tr)
+	lo := rt.U64n("lo", 62)
+	items := m.SecondMetricsOnCondition(func(ts uint64) bool { return ts >= lo })
+	rt.Reach("c08.items")
+	counted := func(e verifEv) bool {
+		return verifInWindow(e.t, tr, bl, uint64(I)) && e.t/bl*bl >= lo
+	}
+	for a, it := range items {
+		rt.Assert(it.Timestamp%1000 == 0, "an item is stamped with the start of its second")
+		for b := a + 1; b < len(items); b++ {
+			rt.Assert(items[b].Timestamp != it.Timestamp, "one item per second")
+		}
+		var sum [5]int64
+		var maxc int64
+		for _, e := range evs {
+			if !counted(e) || e.t/bl*bl/1000*1000 != it.Timestamp {
+				continue
+			}
+			if e.kind == 5 {
+				if e.n > maxc {
+					maxc = e.n
+				}
+			} else {
+				sum[e.kind] += e.n
+			}
+		}
+		rt.Assert(int64(it.PassQps) == sum[0] && int64(it.BlockQps) == sum[1] && int64(it.CompleteQps) == sum[2] && int64(it.ErrorQps) == sum[3],
+			"an item carries exactly the events of the window that fall into the buckets of its second")
+		wantRt := uint64(sum[4])
+		if sum[2] > 0 {
+			wantRt = uint64(sum[4]) / uint64(sum[2])
+		}
+		rt.Assert(it.AvgRt == wantRt, "an item's average response time is the response-time sum over the completions of its second")
+		rt.Assert(int64(it.Concurrency) == maxc, "an item's concurrency is the peak recorded in its second")
+	}
+	for _, e := range evs {
+		if !counted(e) {
+			continue
+		}
+		found := false
+		for _, it := range items {
+			if it.Timestamp == e.t/bl*bl/1000*1000 {
+				found = true
+			}
+		}
+		rt.Assert(found, "every event of the window appears in the item of its second")
+	}
+}
